@@ -68,7 +68,7 @@ func TestC06RefusedChangesNothing(t *testing.T) {
 			}
 
 			endpoint := rapid.SampledFrom([]string{"connect", "update", "peer", "host", "client", "addNode", "withdraw"}).Draw(rt, "endpoint")
-			kind := rapid.SampledFrom([]string{"otherkey", "sigbyte", "short", "empty", "garbage", "stale", "replay"}).Draw(rt, "refusal")
+			kind := rapid.SampledFrom([]string{"otherkey", "sigbyte", "short", "empty", "garbage", "stale", "replay", "farahead"}).Draw(rt, "refusal")
 			isWallet := endpoint == "addNode" || endpoint == "withdraw"
 			victimIdx := rapid.SampledFrom([]int{host, client}).Draw(rt, "victim")
 			victim := s.agents[victimIdx].id
@@ -95,6 +95,12 @@ func TestC06RefusedChangesNothing(t *testing.T) {
 				forgedNonce = lastAccepted
 				signKey = victim.key
 			case "sigbyte", "short", "empty", "garbage":
+				signKey = victim.key
+			case "farahead":
+				// correctly signed by the owner, nonce far ahead of the pool's clock (a skewed agent clock). Whether the
+				// pool honours such a request is not this property's business; IF it refuses it, the refusal must leave
+				// no trace like any other.
+				forgedNonce = now + int64(rapid.SampledFrom([]time.Duration{16 * time.Minute, time.Hour, 24 * time.Hour, 24 * 365 * time.Hour}).Draw(rt, "ahead"))
 				signKey = victim.key
 			}
 			var method string
@@ -154,6 +160,11 @@ func TestC06RefusedChangesNothing(t *testing.T) {
 			before := s.digest()
 			err := f.submit(r, sig, vid, forgedNonce, arg, viaRPC)
 			after := s.digest()
+			if kind == "farahead" && classifyErr(err).Kind != "verify" {
+				// honoured (or failed for a reason other than authentication): not a refused request, nothing to check here
+				rec.Case(fmt.Sprintf("%s|%s|farahead-not-refused", cfg.Driver, endpoint), false, []string{"endpoint:" + endpoint, "refusal:farahead(not refused)", "driver:" + cfg.Driver}, nil)
+				return
+			}
 			if classifyErr(err).Kind != "verify" {
 				rt.Fatalf("%s with refusal kind %q against %s was not refused by verification: %v", method, kind, victim.name, err)
 			}
